@@ -30,6 +30,8 @@ type specEnv struct {
 	// (flushed into the path condition, or kept under the quantifier that binds them)
 	facts    *[]string
 	noUnfold bool
+	// names bound by an enclosing quantifier: they shadow locals of the same name
+	bound map[string]int
 }
 
 type specErr string
@@ -287,6 +289,11 @@ func (st *State) evalSpec(e *SExpr, env *specEnv) Value {
 		name := "q_" + e.Name
 		saved, had := env.vars[e.Name]
 		env.vars[e.Name] = Value{T: T, S: s, Term: name}
+		if env.bound == nil {
+			env.bound = map[string]int{}
+		}
+		env.bound[e.Name]++
+		defer func() { env.bound[e.Name]-- }()
 		// (a bound variable means the same inside old(...))
 		var savedO Value
 		hadO, sameMap := false, false
@@ -381,6 +388,12 @@ func (st *State) specIdent(name string, env *specEnv) Value {
 			return env.result[i]
 		}
 		env.fail("%s out of range", name)
+	}
+	// a variable bound by an enclosing quantifier shadows everything else of that name
+	if env.bound[name] > 0 {
+		if v, ok := env.vars[name]; ok {
+			return v
+		}
 	}
 	// locals first when evaluating loop invariants
 	if env.frame != nil {
@@ -1117,6 +1130,16 @@ func (st *State) specCall(e *SExpr, env *specEnv) Value {
 			}
 			st.res.Assumed["byte model: a byte range is the concatenation of its two parts (instances named by bsplit in the contracts)"] = true
 			return Value{T: boolT, S: SBool, Term: "true"}
+		case "plainprint":
+			// plainprint(i): the dynamic type of the interface value i has none of the methods
+			// (String, Error, Format, GoString) that fmt's verbs would call instead of printing
+			// the value's fields
+			x := st.evalSpec(args[0], env)
+			if x.S != SIface {
+				env.fail("plainprint(%s): not an interface value", args[0])
+			}
+			st.eng.pre.Fun("plain_tag", "(Int) Bool")
+			return Value{T: boolT, S: SBool, Term: app("plain_tag", app("i_tag", x.Term))}
 		case "arrayof":
 			// arrayof(s): the backing array of the slice s (a reference; nil for a nil slice)
 			x := st.evalSpec(args[0], env)
@@ -1160,6 +1183,18 @@ func (st *State) specCall(e *SExpr, env *specEnv) Value {
 						}
 					}
 				}
+			}
+			if fv.Fn == nil && fv.Term != "" {
+				// an unknown (parameter) function value: the uninterpreted application that a call
+				// through a PURE function value is equated with (call.go)
+				var as []Value
+				for _, a := range args[1:] {
+					as = append(as, st.evalSpec(a, env))
+				}
+				if name, ts, ok := st.fnAppTerm(fv.Term, as); ok {
+					return Value{T: boolT, S: SBool, Term: app(name, ts...)}
+				}
+				return st.freshValue("applied", boolT)
 			}
 			if def == nil || len(args)-1 != len(fv.Fn.Params) {
 				return st.freshValue("applied", boolT)
